@@ -2,9 +2,10 @@ SPECIFICATION Spec
 CONSTANTS
   ShapeIds = {1, 2, 3, 4, 5, 6}
   Intervals = {10, 600}
-  TargetIds = {1, 2, 3}
+  TargetIds = {1, 2, 3, 6, 8, 10, 12, 13}
   ChainLen = 14
   Win = 1
+  Spread = 1
   TwoRegime = FALSE
 INVARIANTS WellFormed TimeRule EraOrder Crossing Emit
 CHECK_DEADLOCK FALSE
